@@ -41,13 +41,14 @@ type vfBatchInst struct {
 	used   map[string]bool
 	busy   chan struct{}
 	pubs   int
+	prefix string // fingerprint prefix: "c19batch" (deliveries and trace events) or "c02batch" (deliveries only)
 }
 
 var vfBatchLabels = []string{"p1", "p2", "p3", "p4"}
 
-func vfBatchNew(x *vfExec) *vfBatchInst {
+func vfBatchNew(x *vfExec, prefix string) *vfBatchInst {
 	in := &vfBatchInst{x: x, w: newVfWorld(), trace: &vfMemTracer{}, taken: map[string]int{}, parked: map[string]chan ValidationResult{},
-		adding: map[string]chan struct{}{}, used: map[string]bool{}}
+		adding: map[string]chan struct{}{}, used: map[string]bool{}, prefix: prefix}
 	n, err := vfNewNode(in.w, "N", "gossip", WithMessageSignaturePolicy(StrictNoSign), WithEventTracer(in.trace), WithGossipSubParams(vfGSParams("d2")),
 		WithMessageIdFn(func(m *pb.Message) string { return string(m.GetData()) })) // the message ID is the label
 	if err != nil {
@@ -213,7 +214,10 @@ func (in *vfBatchInst) Finish(judge bool) string {
 	var rec []string
 	bad := func(fp, format string, a ...any) {
 		if judge {
-			in.x.violation("c19batch:"+fp, fmt.Sprintf(format, a...)+fmt.Sprintf(" (taken by PublishBatch: %v, delivered: %v)", in.taken, delivered))
+			if in.prefix == "c02batch" && fp != "delivered-twice" {
+				return // C02 is about "at most once per ID and subscription"; the trace and lost or stray messages are C19's business
+			}
+			in.x.violation(in.prefix+":"+fp, fmt.Sprintf(format, a...)+fmt.Sprintf(" (taken by PublishBatch: %v, delivered: %v)", in.taken, delivered))
 		}
 	}
 	nTaken := 0
@@ -223,6 +227,9 @@ func (in *vfBatchInst) Finish(judge bool) string {
 			want = 1 // cannot happen: a label is added once
 		}
 		nTaken += want
+		if delivered[l] > 1 {
+			bad("delivered-twice", "message %s (one message ID) was delivered %d times to the local subscription", l, delivered[l])
+		}
 		if delivered[l] != want {
 			if delivered[l] > want {
 				bad("delivered-too-often", "message %s was delivered %d times to the local subscription, want %d", l, delivered[l], want)
@@ -257,11 +264,11 @@ func (in *vfBatchInst) Finish(judge bool) string {
 	return strings.Join(rec, " ")
 }
 
-func vfBatchCfg(thorough bool) *vfExploreCfg {
+func vfBatchCfg(thorough bool, prefix string) *vfExploreCfg {
 	depth := 8
 	if thorough {
 		depth = 11
 	}
 	return &vfExploreCfg{Scenario: map[string]any{"part": "batch"}, Name: "batch-reuse", MaxDepth: depth, Bubble: true,
-		New: func(x *vfExec) vfInstance { return vfBatchNew(x) }}
+		New: func(x *vfExec) vfInstance { return vfBatchNew(x, prefix) }}
 }
